@@ -13,7 +13,7 @@ from .terms import Dim, T, Term, const
 
 ELEMENTWISE = {
     "add", "sub", "mul", "smul", "div", "sdiv", "pow", "neg", "sqrt", "abs", "exp", "log", "lt", "le", "gt", "ge", "eq", "ne",
-    "where3", "bitand", "bitor", "invert", "emin", "emax", "mod", "floordiv", "astype", "truthy",
+    "where3", "bitand", "bitor", "invert", "emin", "emax", "mod", "floordiv", "astype", "truthy", "round", "floor", "ceil", "trunc", "sign", "square",
 }
 SCALAR_LOGIC = {"and": "bitand", "or": "bitor", "not": "invert"}
 _NONE = const(None)
@@ -317,6 +317,16 @@ def lift_broadcast(t, lv, n, shp, dim_term):
                 info["d"] = sh[1]
                 info["hit"] = True
                 r = T("reshape1", x.args[0], dim_term(n), const(1), dim_term(sh[1]))
+        elif x.op == "matmul" and len(x.args) == 2 and isinstance(x.args[1], Term) and x.args[1].op == "dg" and len(x.args[1].args) == 1 and not mentions(x.args[1], lv):
+            # (m, D) block scaled column-wise by a vector: the elementwise product with that vector
+            vec = x.args[1].args[0]
+            vsh = shp(vec)
+            lhs = rec(x.args[0])
+            if lhs is not None and (vsh is None or len(vsh) == 1):
+                if isinstance(vec, Term) and vec.op == "div" and len(vec.args) == 2 and vec.args[0] == const(1):
+                    r = T("div", lhs, vec.args[1])
+                else:
+                    r = T("mul", lhs, vec)
         elif x.op in ELEMENTWISE:
             parts = [rec(a) if isinstance(a, Term) else a for a in x.args]
             r = None if any(p is None for p in parts) else T(x.op, *parts)
